@@ -17,7 +17,7 @@ import Proofs.C19Reasm
       flush hypothesis cannot be dropped.  The correspondence run checks the hypothesis on recorded call traces.
     * five defects found by the correspondence run are pinned by evaluation (`seq_wrap_witness` for the one that
       remains, in gopacket; `defrag_length_regression`, `fsm_reorder_regression`, `pcapng_shb_section_regression`,
-      `pcapng_section_length_regression` for the four that have been fixed in /repo).
+      `pcapng_section_length_regression`, `tcp_header_cut_regression` for those that have been fixed in /repo).
 -/
 namespace Props.C19
 open FqModel.Reasm Proofs.C19
@@ -440,14 +440,22 @@ theorem seq_wrap_witness :
     seqDifference 0xFFFFFFFF 0 = 0 ∧ seqDifference 77 78 = 1 := by
   decide
 
-/-- known finding `tcp-header-cut`: 30 bytes of an IPv4 packet captured = 10 bytes of the TCP header: nothing of the
-    segment is visible, yet fq's `packet` hands a segment without transport endpoints to the assembler and `New`
-    makes a connection with ports 0; a cut exactly after the IP header or in the payload does not -/
-theorem tcp_header_cut_witness :
-    tcpHeaderCut 20 30 = true ∧ visiblePayload 20 30 8 = none ∧
+/-- fixed finding `tcp-header-cut` (regression): 30 bytes of an IPv4 packet captured = 10 bytes of the TCP header:
+    nothing of the segment is visible.  OLD `packet` still handed the zero TCP layer to the assembler and `New`
+    made a connection with ports 0; since e2e770fa a segment reaches the assembler iff something of it is visible
+    (for every cut point and length). -/
+theorem tcp_header_cut_regression :
+    tcpHeaderCut 20 30 = true ∧ visiblePayload 20 30 8 = none ∧ reachesAssemblerOld 20 30 8 = true ∧
     (newConn (α := Nat) [10, 0, 0, 1] [10, 1, 0, 2] [] []).client.port = 0 ∧
     (newConn (α := Nat) [10, 0, 0, 1] [10, 1, 0, 2] [] []).server.port = 0 ∧
-    tcpHeaderCut 20 20 = false ∧ tcpHeaderCut 20 43 = false ∧ tcpHeaderCut 40 49 = true := by decide
+    reachesAssembler 20 30 8 = false ∧ reachesAssembler 20 43 8 = true ∧ reachesAssembler 40 49 8 = false ∧
+    (∀ ipHdr k n, reachesAssembler ipHdr k n = true ↔ ipHdr + 20 ≤ k) := by
+  refine ⟨by decide, by decide, by decide, by decide, by decide, by decide, by decide, by decide, ?_⟩
+  intro ipHdr k n
+  unfold reachesAssembler visiblePayload
+  by_cases h : k < ipHdr + 20
+  · simp [h]
+  · simp only [h, if_false, Option.isSome_some, true_iff]; omega
 
 /-- fixed finding `defrag-length` (regression): the 28 byte payload cut into [0,8) and [8,28), arriving in
     reverse order.  The reference rebuilds it; the OLD test `newIPv4.Length != l` compared 28 with the total
